@@ -92,6 +92,10 @@ def build(cfg, prof, bins, instr="native"):
                 raise BuildError("miri build failed for %s/%s %s:\n%s" % (cfg, prof, b, tail(p.stdout, 40)))
         _built[key] = "MIRI"
         return "MIRI"
+    if instr == "valgrind":
+        out = build(cfg, prof, bins, "native")
+        _built[key] = out
+        return out
     tdir = cell_dir(cfg, prof, instr)
     env = base_env()
     cmd = ["cargo"]
@@ -161,7 +165,10 @@ def run_shard(job, idx, prop, sd, workdir, extra_args=None):
     if job.instr.startswith("miri"):
         launcher = miri_cmd(job.cfg, job.prof, job.engine)
     else:
-        launcher = list(job.wrapper) + [os.path.join(job.bindir, job.engine)]
+        wrapper = list(job.wrapper)
+        if job.instr == "valgrind":
+            wrapper = ["valgrind", "--quiet", "--error-exitcode=88", "--track-origins=no", "--read-var-info=no"] + wrapper
+        launcher = wrapper + [os.path.join(job.bindir, job.engine)]
     cmd = launcher + ["--prop", prop, "--seed", str(sd), "--shard", "%d/%d" % (idx, job.shards), "--budget-s", "%.1f" % job.budget,
                                "--replay-dir", REPLAYS, "--log", logf,
                                "--corpus64", os.path.join(CORPUS, "cf_hard_f64.txt"), "--corpus32", os.path.join(CORPUS, "cf_hard_f32.txt")] + job.args + list(extra_args or [])
@@ -170,6 +177,8 @@ def run_shard(job, idx, prop, sd, workdir, extra_args=None):
     if job.instr.startswith("miri"):
         env["RUSTFLAGS"] = HOOK_FLAG
         env["MIRIFLAGS"] = MIRI_FLAGS[job.instr] + (" " + job.miriflags if getattr(job, "miriflags", "") else "")
+    if job.instr == "tsan":
+        env["TSAN_OPTIONS"] = "halt_on_error=1:exitcode=66:report_signal_unsafe=0"
     if job.instr == "asan":
         env["ASAN_OPTIONS"] = "halt_on_error=1:abort_on_error=0:detect_leaks=0:exitcode=77"
     env.update(job.env)
@@ -283,8 +292,13 @@ def abnormal(results):
 
 def first_repo_frame(text):
     """First stack frame (file:line) inside the crate under test."""
-    for m in re.finditer(r"(?:/repo/)?(src/[a-z_]+\.rs):(\d+)", text):
+    m = re.search(r"/repo/(src/[a-z_]+\.rs):(\d+)", text)
+    if m:
         return "%s:%s" % (m.group(1), m.group(2))
+    # valgrind: "by 0x...: minimal_lexical::bigint::small_mul (bigint.rs:457)"
+    m = re.search(r"minimal_lexical::[^\n]*?\(([a-z_]+\.rs):(\d+)\)", text)
+    if m:
+        return "src/%s:%s" % (m.group(1), m.group(2))
     return None
 
 
@@ -305,6 +319,10 @@ def sanitizer_report(res):
     if m:
         rep = err[m.start():]
         return {"tool": "asan", "kind": "AddressSanitizer", "message": m.group(1).strip(), "frame": first_repo_frame(rep), "excerpt": tail(rep[:8000], 60)}
+    m = re.search(r"==\d+== (Invalid (?:read|write)[^\n]*|Conditional jump or move depends on uninitialised[^\n]*|Use of uninitialised[^\n]*|Syscall param[^\n]*uninitialised[^\n]*|Process terminating with default action of signal[^\n]*|Invalid free[^\n]*|Mismatched free[^\n]*)", err)
+    if m:
+        rep = err[m.start():]
+        return {"tool": "valgrind", "kind": "memcheck", "message": m.group(1).strip(), "frame": first_repo_frame(rep), "excerpt": tail(rep[:8000], 60)}
     m = re.search(r"WARNING: ThreadSanitizer: ([^\n]*)", err)
     if m:
         rep = err[m.start():]
